@@ -528,15 +528,19 @@ static std::string ringExpect(PolyCache& pc, bool simple, double px, double py, 
     CoordinateSequence seq(0u, false, false); seq.reserve(n);
     for (size_t i = 0; i < n; i++) seq.add(CoordinateXY(xy[2 * i], xy[2 * i + 1]));
     std::string s;
+    char inPoly = 'X';
     try { char c = locTok(PointLocation::locateInRing(p, seq)); s += c; if (locOut) *locOut = c; } catch (...) { s += "EXC"; }
     s += ' ';
     try {
         RayCrossingCounter rcc(p);
         for (size_t i = 1; i < n; i++) rcc.countSegment(seq.getAt<CoordinateXY>(i - 1), seq.getAt<CoordinateXY>(i));
         s += locTok(rcc.getLocation());
+        inPoly = rcc.isPointInPolygon() ? '1' : '0';
     } catch (...) { s += "EXC"; }
     s += ' ';
     try { s += PointLocation::isOnLine(p, &seq) ? '1' : '0'; } catch (...) { s += "EXC"; }
+    s += ' ';
+    s += inPoly;          // RayCrossingCounter::isPointInPolygon() after all segments
     if (simple) {
         pc.set(xy);
         s += ' ';
